@@ -95,6 +95,58 @@ CHECKS = {
             "Theorems: unknown element => exactly one warning naming it, ignored element => none; converter warnings = warnings of the traversal in order; clean subtree => none; messages are NoDup and lose nothing; "
             "style-map warnings one per distinct unreadable line. Oracle: the message set equals the anomalies an independent walk of the package lists; clean packages yield [].",
             BASE_NOTE, "DESIGN.md §5 C16"),
+    "C06": ("proof",
+            "Coq print/parse round trip over an abstract syntax of the documented notation (independent printer, denotation) + in-kernel and README-level correspondence",
+            "An abstract syntax of everything the README notation can express, an independent printer with arbitrary legal whitespace and backslash escapes, and its denotation are defined in Coq. "
+            "Theorems (see evidence for which are discharged): escapes decode back to arbitrary characters; the parser maps the intended token list to exactly the denotation; the tokeniser cuts the printed "
+            "text into exactly the intended tokens; hence read(print m) = denote m. Every generated mapping is printed by the harness's own printer, compared with the Coq printer's text, parsed by the "
+            "implementation and compared with denote (in Coq) and with the README meaning (in Python).",
+            BASE_NOTE + "Domain: identifiers without raw whitespace other than \\n \\r \\t; attribute names distinct and not `class` next to classes; list level within the interpreter's int-digit limit.",
+            "DESIGN.md §5 C06"),
+    "C08": ("proof",
+            "Coq facts computed over the default style map regenerated from options.py + numbering-resolution equations + end-to-end correspondence with a stack-algorithm block oracle",
+            "Theorems by computation over the generated default map: Heading 1-6 by id and by name in any case give fresh h1-h6, list levels 1-5 give (ul|ol > li)^(d-1) > own-type > li:fresh, everything else a fresh p, "
+            "every paragraph block ends in a fresh element (with C04's merge_iff: no two paragraphs share a block); the paragraph's own numId+ilvl win, else the paragraph style's level; find_level follows num -> abstractNum -> numStyleLink. "
+            "Oracle: the block skeleton of the output equals an independent stack-algorithm specification for random paragraph sequences in body, cells and notes through all three numbering mechanisms.",
+            BASE_NOTE + "The refinement `collapse of the default list paths = stack algorithm` is validated by the oracle (and C04's theorems), not yet a single Coq theorem.",
+            "DESIGN.md §5 C08"),
+    "C12": ("proof",
+            "Coq proofs about the archive/XML-entry bookkeeping, the UTF-8 round trip and the file rewrite (truncate flag read from zips.py on every run) + history and fault-injection correspondence",
+            "Theorems: utf8 decode(encode s) = s for all scalar strings; the rewritten entries hold the new content, every other entry is unchanged, no name is lost; relationships and content-types hold exactly one style-map entry after any number of embeds "
+            "and keep all others in order; with the truncate that the translator finds in update_zip the file is exactly the new archive whatever was there before (no stale bytes) — refuted variant without it; a fault before the first mutating operation leaves the file unchanged. "
+            "Harness: histories of growing/shrinking embeds on BytesIO and r+b files with all clauses checked on the real bytes, and an I/O error injected at every file operation.",
+            BASE_NOTE + "zipfile (parse o serialize = id), ElementTree and the OS file layer are runtime. Known findings K1/K2: a fault after the first mutating operation cannot leave the file unchanged (in-place rewrite).",
+            "DESIGN.md §5 C12"),
+    "C15": ("other",
+            "history / thread / hash-seed / file-object repeat testing against baselines that are also compared with the pure Coq model; small proved fragment",
+            "Module state, closures, threads and hash seeds live in the interpreter: not expressible in the functional model. Every (document, options, format) job is converted alone, inside shuffled histories, in 8 barrier-released threads, "
+            "twice on one file object and in child interpreters under several PYTHONHASHSEEDs; all digests must equal the baseline, inputs stay byte-identical, earlier results and the shared defaults (deep snapshot) unchanged; baselines equal the pure model.",
+            BASE_NOTE + "Schedules and seeds are sampled, not enumerated.",
+            "DESIGN.md §5 C15"),
+    "C17": ("proof",
+            "Coq proofs of the content-type / part-name / alt / once-in-order rules and the base64 round trip + end-to-end correspondence with a per-image oracle",
+            "Theorems: content type = override, else extension default, else built-in table on the lower-cased extension; embedded image part name; the img elements in the output are exactly those of the images visited, in order, one converter call each "
+            "(visit_images over the reading-order trace); the converter's alt overrides the document's; base64 decodes back to the bytes. Oracle: (type, bytes, alt) per image computed from the package vs the img elements, for the default and three custom converters.",
+            BASE_NOTE + "Byte transport through zipfile and the stdlib base64 is runtime: compared, not proved.",
+            "DESIGN.md §5 C17"),
+    "C18": ("proof",
+            "audit-hook trace of every conversion compared with the linked images the property allows + Coq decision rules for embedded / linked images",
+            "Theorems: an embedded image never depends on anything outside the package; a relative linked image with an anonymous input is not opened and yields the warning. The runtime clause is checked with sys.addaudithook: "
+            "the open / urllib / socket events outside the interpreter's own files must be exactly the linked images opened, in order, also for packages whose XML parts carry DOCTYPEs with external subsets and external general/parameter entities pointing at canaries.",
+            BASE_NOTE + "expat's refusal to fetch DTDs / entities and everything below open/urlopen is runtime: observed, not proved.",
+            "DESIGN.md §5 C18"),
+    "C19": ("proof",
+            "Coq proofs over all document trees and all transform functions + in-kernel correspondence of call sequence, result and descendants",
+            "Theorems for every f: f is called exactly once per element and, through element_of_type, exactly once per paragraph/run of the original tree; children first; the returned element takes the original's place; other kinds pass through; identity changes nothing; "
+            "get_descendants lists every proper descendant once in post-order, get_descendants_of_type is its filter. The model's call log and results are compared in Coq with mammoth.transforms for a family of transforms.",
+            BASE_NOTE + "Notes and comments are not children of the document and are not visited (as coded; the property says body).",
+            "DESIGN.md §5 C19"),
+    "C20": ("proof",
+            "Coq model of the command's glue (UTF-8 of the library value, stderr lines, numbered image files) + subprocess correspondence",
+            "Theorems: the bytes written are utf8_encode of the value the library model returns for the same input/options, stderr the messages; the k-th successfully copied image gets file k.<subtype> (numbering proved consecutive from 1). "
+            "Subprocess runs of python -m mammoth.cli over {path, stdout, --output-dir} x format x style-map file are compared bytewise with the library result, the package's image parts and the Coq model.",
+            BASE_NOTE + "argparse, locale, streams and the file system are runtime.",
+            "DESIGN.md §5 C20"),
 }
 
 PENDING = {}
@@ -146,7 +198,7 @@ def main():
     print("MANIFEST.json: %d checks, %d not_applicable" % (len(checks), len(na)))
 
 
-SOURCE_COMMITS = ["885c918 fix: string token regex backtracked exponentially", "7af9c40 fix: list level with more digits than int() accepts", "9fb343f fix: mc:AlternateContent without mc:Fallback", "7eb27cb fix: dangling w:numStyleLink", "0690070 fix: CDATA text dropped", "be64d21 fix: HYPERLINK field switches swallowed"]
+SOURCE_COMMITS = ["885c918 fix: string token regex backtracked exponentially", "7af9c40 fix: list level with more digits than int() accepts", "9fb343f fix: mc:AlternateContent without mc:Fallback", "7eb27cb fix: dangling w:numStyleLink", "0690070 fix: CDATA text dropped", "be64d21 fix: HYPERLINK field switches swallowed", "f6a5af7 fix: update_zip left stale bytes"]
 
 if __name__ == "__main__":
     main()
